@@ -80,13 +80,33 @@ static std::string fmt_f32(float f) { if (std::isnan(f)) return "nan"; uint32_t 
 static std::string fmt_f64(double f) { if (std::isnan(f)) return "nan"; uint64_t b; std::memcpy(&b, &f, 8); return fmt_hexnum(b); }
 
 template <class R>
+static std::string do_read1(R& r, const std::string& op, const std::string& ty);
+
+template <class R>
 static std::string do_read(R& r, const std::vector<std::string>& t) {
-	const std::string& op = t.at(3);
+	return do_read1(r, t.at(3), t.size() > 5 ? t.at(4) : std::string());
+}
+
+// q <kind> <pol> <op,op,...> <hexdata>: a sequence of reads on one reader; int ops are written int:<type>
+template <class R>
+static std::string do_seq(R& r, const std::string& ops) {
+	std::string out;
+	for (auto& o : vh::split(ops, ',')) {
+		std::string op = o, ty;
+		if (auto p = o.find(':'); p != std::string::npos) { op = o.substr(0, p); ty = o.substr(p + 1); }
+		if (!out.empty()) out += ";";
+		try { out += do_read1(r, op, ty); }
+		catch (...) { out += "ERR " + cat_of_current_exception(); break; }
+	}
+	return out;
+}
+
+template <class R>
+static std::string do_read1(R& r, const std::string& op, const std::string& ty) {
 	auto done = [&](bool ok, const std::string& val) {
 		return ok ? "OK " + val + " " + std::to_string(r.GetPosition()) : "NOT " + std::to_string(r.GetPosition());
 	};
 	if (op == "int") {
-		const std::string& ty = t.at(4);
 #define RI(NAME, T, FMT) if (ty == NAME) { T v{}; bool ok = r.ReadValue(v); return done(ok, FMT); }
 		RI("u1", bool, std::string(v ? "+1" : "+0"))
 		RI("u8", uint8_t, fmt_shex(v)) RI("u16", uint16_t, fmt_shex(v)) RI("u32", uint32_t, fmt_shex(v))
@@ -121,6 +141,14 @@ int main() {
 				if (t.at(1) == "m") { CMsgPackStringWriter w(out); do_write(w, t); }
 				else { std::ostringstream os; { CMsgPackStreamWriter w(os); do_write(w, t); } out = os.str(); }
 				std::cout << vh::fmt_hex(out) << "\n";
+			}
+			else if (t.at(0) == "q") {
+				SerializationOptions opt;
+				opt.mismatchedTypesPolicy = t.at(2).at(0) == 'T' ? MismatchedTypesPolicy::ThrowError : MismatchedTypesPolicy::Skip;
+				opt.overflowNumberPolicy = t.at(2).at(1) == 'T' ? OverflowNumberPolicy::ThrowError : OverflowNumberPolicy::Skip;
+				std::string data = vh::parse_hex(t.back());
+				if (t.at(1) == "m") { CMsgPackStringReader r(data, opt); std::cout << do_seq(r, t.at(3)) << "\n"; }
+				else { std::istringstream is(data); CMsgPackStreamReader r(is, opt); std::cout << do_seq(r, t.at(3)) << "\n"; }
 			}
 			else if (t.at(0) == "r") {
 				SerializationOptions opt;
